@@ -183,6 +183,46 @@ def standalone(chk, rng, n):
     chk.dist['standalone_element_cases'] = done
 
 
+def reuse(chk, rng, classes, n):
+    """one datatype object encoded several times with different delimiter sets — sets that differ in one role only (the
+    truncation character present / absent / another one; another escape character; two roles swapped): every call must return
+    what a fresh object of the same class returns for that text and set (a memo kept on the object or on the class and keyed
+    on too little — seed C06-h — shows here)"""
+    from hl7apy.consts import VALIDATION_LEVEL
+    done = 0
+    for _ in range(n):
+        v, dt, cls, v27 = rng.choice(classes)
+        base = rng.sample(PUNCT, 7)
+        e1 = mk_ec(base[:5])
+        chain = [e1, mk_ec(base[:6]), mk_ec(base[:5] + [base[6]]), e1,
+                 mk_ec(base[:4] + [base[6]]), mk_ec([base[1], base[0]] + base[2:5]), mk_ec(base[:6])]
+        if not v27:
+            chain = [e for e in chain if 'TRUNCATION' not in e] + [e1]
+        rng.shuffle(chain)
+        alpha = base + [base[4]] * 2 + list('HFELa ')
+        s = ''.join(rng.choice(alpha) for _ in range(rng.randint(1, 10)))
+        try:
+            obj = cls(s, validation_level=VALIDATION_LEVEL.TOLERANT)
+        except Exception:  # noqa
+            continue
+        for k, ec in enumerate(chain):
+            chk.evals += 1
+            try:
+                got = 'ok ' + vlib.hexs(obj.to_er7(ec))
+            except Exception as ex:  # noqa
+                got = 'exc ' + type(ex).__name__
+            fresh = impl_escape(cls, s, ec)
+            if got != fresh:
+                rep = {'api': 'one object: obj = cls(value); obj.to_er7(ec_1); ...; obj.to_er7(ec_k)', 'class': '%s/%s' % (v, dt), 'value': s,
+                       'encoding_chars_sequence': [vlib.ec_hex(e) for e in chain[:k + 1]]}
+                chk.fail(None, {'clause': 'the encoding of a leaf depends on the encodings made before (same object, another delimiter set)',
+                                'got': vlib.unhexs(got[3:]) if got.startswith('ok ') else got,
+                                'fresh_object_gives': vlib.unhexs(fresh[3:]) if fresh.startswith('ok ') else fresh, **rep}, rep)
+                break
+        done += 1
+    chk.dist['objects_reused_across_delimiter_sets'] = done
+
+
 def run(tier, seed):
     chk = vlib.Check('C06', tier, seed)
     rng = chk.rng
@@ -236,6 +276,7 @@ def run(tier, seed):
         oracle(chk, c[0], c[1], c[2], c[3], o, mo, c[4])
     element_counts(chk, rng, 60 if tier == 'quick' else 600)
     standalone(chk, rng, 200 if tier == 'quick' else 3000)
+    reuse(chk, rng, classes, 600 if tier == 'quick' else 6000)
     chk.exhaustive = False
     chk.rule = ('(a) all strings of length <= %d over {escape, field, component, F, E, L, a, truncation} for %d delimiter sets (exhaustive part: %d cases); '
                 '(b) %d random strings (length 1-40) per delimiter set over delimiters+escape+HNFSTREL+filler for %d valid punctuation sets; '
